@@ -351,8 +351,12 @@ pub fn should_use_sparse_threshold(vector: &[f32], threshold: f32) -> bool {
 
 /// Heuristic: does this vector look like an ID list?
 fn looks_like_id_list(vector: &[f32], field_name: &str) -> bool {
+    // Only values that survive f32 -> u64 -> f32 may be stored as an id list.
+    const LIMIT: f32 = 18_446_744_073_709_551_616.0; // 2^64
+    let representable = |v: f32| v >= 0.0 && v < LIMIT && v.fract() == 0.0;
+
     if field_name == "ids" || field_name.ends_with("_ids") {
-        return true;
+        return vector.iter().all(|&v| representable(v));
     }
 
     if vector.len() < 2 {
@@ -360,13 +364,13 @@ fn looks_like_id_list(vector: &[f32], field_name: &str) -> bool {
     }
 
     // Check first value
-    if vector[0] < 0.0 || vector[0].fract() != 0.0 {
+    if !representable(vector[0]) {
         return false;
     }
 
     let mut prev = vector[0];
     for &v in &vector[1..] {
-        if v < prev || v < 0.0 || v.fract() != 0.0 {
+        if v < prev || !representable(v) {
             return false;
         }
         prev = v;
